@@ -81,3 +81,41 @@ Theorem C14_failed_append_leaves_nothing : forall c init n0, WellFormed c init n
              (forall t, t <> u -> pcs s' t = pcs s t).
 Proof. intros c init n0 (H1 & H2 & H3 & H4). exact (failed_append_leaves_nothing c init n0 H1 H2 H3 H4). Qed.
 Print Assumptions C14_failed_append_leaves_nothing.
+
+(* Big record files. AppendRecord computes the slot and the byte offset of the write from the file length in machine
+   arithmetic (Model/C14.v append_idx / append_off / append_ret: a 64-bit quotient, a 64-bit product, wrap after every
+   operation). For EVERY record size and EVERY file length such that the file after the append still has a length an
+   off_t can hold (2^63), nothing wraps: the offset is the exact multiple of the record size at or just below the end of
+   the file (the end itself for a file of whole records), Seek accepts it, the returned index is the slot + 1 - and both
+   are the numbers the interleaving model above computes on nat ([length file / sz] in step PFlocked, [i * sz] in step
+   PSeeked, [S i] in step PUnflocked). So the theorems above speak about files of 2 GiB, 4 GiB and more as well as about
+   small ones. (What is a theorem: the arithmetic. That the compiled code uses these widths is validated by the check on
+   sparse files around 2^31, 2^32, 2^33 and 2^40 bytes.) *)
+Theorem C14_offset_exact : forall fsize szz, 0 < szz -> 0 <= fsize -> fsize + szz < 9223372036854775808 ->
+  append_idx fsize szz = fsize / szz /\
+  append_off fsize szz = fsize / szz * szz /\
+  append_ret fsize szz = fsize / szz + 1 /\
+  append_seek_ok fsize szz = true /\
+  append_off fsize szz <= fsize < append_off fsize szz + szz /\
+  (fsize mod szz = 0 -> append_off fsize szz = fsize) /\
+  Z.to_nat (append_off fsize szz) = (Z.to_nat fsize / Z.to_nat szz * Z.to_nat szz)%nat /\
+  Z.to_nat (append_ret fsize szz) = S (Z.to_nat fsize / Z.to_nat szz).
+Proof. exact offset_exact. Qed.
+Print Assumptions C14_offset_exact.
+
+(* Whole records in front of the file do not matter. [shifted k P s s']: s' is s with P in front of the file and every
+   index held by a thread (the slot it seeked to, the index it returned) increased by k - same program counters otherwise,
+   same lock table, same flock owner, same order of completed writes. For EVERY configuration, EVERY prefix P of k whole
+   records, EVERY initial file and EVERY schedule, the run on [P ++ init] is the shifted run on [init], and a strict
+   replay is accepted on the one iff it is accepted on the other. With C14_offset_exact this is what lets the check replay
+   a trace observed on a file of 4 GiB through the model on the window that starts at the last initial record: the
+   33 554 431 records in front of it are P. *)
+Theorem C14_prefix_shift : forall c k P, (0 < sz c)%nat -> length P = (k * sz c)%nat -> forall init sch,
+  shifted k P (run c sch (init_st init)) (run c sch (init_st (P ++ init))) /\
+  match replay c sch (init_st init), replay c sch (init_st (P ++ init)) with
+  | Some a, Some a' => shifted k P a a'
+  | None, None => True
+  | _, _ => False
+  end.
+Proof. exact prefix_shift. Qed.
+Print Assumptions C14_prefix_shift.
